@@ -92,6 +92,21 @@ def replay(spec, steps):
                 else:
                     args = {("given", "x"): nodes[(o, last["given"])]} if last.get("given") else None
                     obs = realize.perform(target, val.norm(last["op"]), 0, args=args)
+                    # getitem / setdefault return THE node object that sits at that key (as dict returns the stored
+                    # object): the user's next call goes through it
+                    if last["op"]["op"] in ("getitem", "setdefault") and obs[0] == "ret" and last["attached"] \
+                            and last["ret"].get("t") in ("d", "l") and not last.get("pre"):
+                        k = last["op"]
+                        step = val.key_to_py(k["k"]) if "k" in k else (k["i"] if k["i"] >= 0 else None)
+                        got = obs[1]
+                        where = _find(roots[o], got) if _data(got) is not None else None
+                        want_at = _path(last["path"]) + (step,) if step is not None else None
+                        if where is None or (want_at is not None and where != [want_at]):
+                            problems.append({"aspect": "identity", "step": n, "detail":
+                                             f"{k['op']} returned {type(got).__name__} which is "
+                                             + ("not a synced node object" if where is None else f"in the tree at {where}")
+                                             + f"; the node object at {want_at} is expected (writes through the returned object must persist)"})
+                            break
                     ok, why = realize.matches(obs, val.norm(last["ret"]))
                     if not ok:
                         if last["op"]["op"] == "popitem" and obs[0] == "ret":
